@@ -219,3 +219,7 @@ def run(rep, programs):
     c15.r_reserve_before_lower(rep, prog)    # a targeted request hands its frame to Lower::get and charges that frame's tree
     c01.r_huge_coord(rep, prog)       # counter and bits that are changed together belong to the same huge frame
     c01.r_units(rep, prog)            # no tree / huge / row number is used where a frame number is meant (and vice versa)
+    # a free or targeted allocation of a block that is not entirely inside the managed range must be rejected before it changes anything
+    from props import c08
+    c08.r_check_dom(rep, prog)
+    c08.r_check_guards(rep, prog)
